@@ -312,7 +312,6 @@ func (d *CompositeSequenceDFA) SearchAt(haystack []byte, at int) (int, int, bool
 				if lastAcceptEnd > 0 {
 					return matchStart, lastAcceptEnd, true
 				}
-				start = pos - 1 // Skip: dead byte at pos, outer loop start++ → pos
 				goto nextStart
 			}
 			if accepting[state] {
@@ -327,7 +326,6 @@ func (d *CompositeSequenceDFA) SearchAt(haystack []byte, at int) (int, int, bool
 				if lastAcceptEnd > 0 {
 					return matchStart, lastAcceptEnd, true
 				}
-				start = pos // Skip: dead byte at pos+1
 				goto nextStart
 			}
 			if accepting[state] {
@@ -342,7 +340,6 @@ func (d *CompositeSequenceDFA) SearchAt(haystack []byte, at int) (int, int, bool
 				if lastAcceptEnd > 0 {
 					return matchStart, lastAcceptEnd, true
 				}
-				start = pos + 1 // Skip: dead byte at pos+2
 				goto nextStart
 			}
 			if accepting[state] {
@@ -357,7 +354,6 @@ func (d *CompositeSequenceDFA) SearchAt(haystack []byte, at int) (int, int, bool
 				if lastAcceptEnd > 0 {
 					return matchStart, lastAcceptEnd, true
 				}
-				start = pos + 2 // Skip: dead byte at pos+3
 				goto nextStart
 			}
 			if accepting[state] {
@@ -394,10 +390,15 @@ func (d *CompositeSequenceDFA) SearchAt(haystack []byte, at int) (int, int, bool
 			return matchStart, lastAcceptEnd, true
 		}
 
-		// Skip: all bytes up to pos already processed, advance outer loop
-		start = pos - 1
-
 	nextStart:
+		// No match starts at 'start'. The first part is cc+ (unbounded), so no match
+		// starts inside the same run of first-part bytes either: it could be extended
+		// to the left. Every other position must still be tried, the bytes that ended
+		// this attempt can belong to a match that starts later ("acacacd" for
+		// [ab]+[cx]+[ab]+[cx]+[dy]+ matches at 2, not at 0).
+		for start+1 < n && firstPartClass[haystack[start+1]] {
+			start++
+		}
 	}
 
 	return -1, -1, false
